@@ -56,6 +56,7 @@ SWALLOWED = []  # (block, exception kind): a probe handler caught the exception 
 EXC_EXITS = []  # exception kinds that left an event handler
 DEEP = []       # handler entries at a nesting depth that no documented window allows
 BUSY_OK = []    # blocks whose event() returned normally although their handler was running (probe depth > 0)
+SAVES = []      # (block, _event_active, probe depth) at every get_state() call (the persistent-state save)
 COND_TAGS = set()
 COND_BAD = []   # a cond_EVENT callback that ran while its FSM was not locked
 NOT_TOP = []    # a Repeat block forwarded outside of its own handler / re-sent while some block was locked
@@ -106,6 +107,11 @@ class _Traced:
                 err._c11_seen = True
                 REFUSED.append(self.name)
             raise
+
+    def get_state(self):
+        """observe the save of the persistent state (AddonPersistence.event -> save_persistent_state)"""
+        SAVES.append((self.name, bool(self._event_active), getattr(self, '_c11_depth', 0), getattr(self, '_c11_window', 0)))
+        return super().get_state()
 
     def _c11_exit(self, ok):
         self._c11_depth -= 1
@@ -459,6 +465,8 @@ def build(scn):
             if src == i:
                 slots.setdefault(slot, []).append(edzed.Event(f'b{dest}', py_etype(et), efilter=[py_filter(f) for f in fl]))
         kw = {'on_output': slots['o'], 'on_every_output': slots['e']}
+        if b.get('persistent'):
+            kw['persistent'] = True         # sync_state=True: the state is saved after every event
         if b['kind'] == 'probe':
             blk = PB(f'b{i}', scripts={'init': b['init'], 'a': b['a'], 'b': b['b'], 'need': b['need'], 'ping': []},
                      extra=slots['x'], **kw)
@@ -541,9 +549,12 @@ def run_impl(scn):
     del DEEP[:]
     del NOT_TOP[:]
     del COND_BAD[:]
+    del SAVES[:]
     COND_TAGS.clear()
 
     def build_circuit(circuit):
+        if any(b.get('persistent') for b in scn['blocks']):
+            circuit.set_persistent_data({})     # an empty storage: nothing to restore, every event saves
         ctx['blocks'] = build(scn)
         return ctx['blocks']
 
@@ -568,7 +579,13 @@ def run_impl(scn):
         del NOT_TOP[:]
         cond_bad = list(COND_BAD)
         del COND_BAD[:]
-        steps.append({'cond_bad': cond_bad, 'not_top': not_top, 'deep': deep, 'op': op, 'res': res, 'items': items, 'refused': refused, 'busy_ok': busy_ok, 'swallowed': swallowed, 'exc_exits': exc_exits,
+        saves = list(SAVES)
+        del SAVES[:]
+        if saves:
+            COND_TAGS.add('saved')
+        if any(x[2] and x[3] for x in saves):
+            COND_TAGS.add('saved:inside-chained-transition-window')
+        steps.append({'saves': saves, 'cond_bad': cond_bad, 'not_top': not_top, 'deep': deep, 'op': op, 'res': res, 'items': items, 'refused': refused, 'busy_ok': busy_ok, 'swallowed': swallowed, 'exc_exits': exc_exits,
                       'active': [b.name for b in blocks if b._event_active],
                       'error': kind_of(sim.circuit.error),
                       'maxdepth': max((getattr(b, '_c11_max', 0) for b in blocks), default=0)})
@@ -703,6 +720,12 @@ def oracle(scn, res):
         if deep:
             out.append({'clause': 'no_nested_handling',
                         'what': f"step {i} {op}: handler entered while the block was handling an event: {deep}"})
+        # the save never runs with the block locked, nor inside a handler of the block – except when that handler is
+        # suspended in the documented chained-transition window (the nested event()'s own wrapper saves)
+        bad_saves = [x for x in s['saves'] if x[1] or (x[2] and not x[3])]
+        if bad_saves:
+            out.append({'clause': 'save_outside_guard',
+                        'what': f"step {i} {op}: get_state() of a block that was inside event(): {bad_saves}"})
         if s['cond_bad']:
             out.append({'clause': 'cond_callback_runs_locked',
                         'what': f"step {i} {op}: {s['cond_bad']}"})
@@ -803,6 +826,14 @@ def seeds():
            'edges': [], 'ops': [E(0, 'e0'), E(0, 'e1', {'value': 1}), E(0, 'e0', {'value': 1})]}
     yield {'blocks': [fsm(2, [['e0', None, 1], ['e1', None, 0]], conds={'e1': [[['r']], ['c', True]]}, timed=[None, [N('e1'), 1]])],
            'edges': [], 'ops': [E(0, 'e0'), ['tick'], E(0, 'e0')]}
+    # persistent blocks (empty storage, sync_state): the state is saved after each event, outside the guard;
+    # a cycle through a persistent Input; a handler error disables persistence and is re-raised
+    yield {'blocks': [{**inp(), 'persistent': True}, {**cnt(), 'persistent': True}],
+           'edges': [[0, 'o', 1, N('inc'), ['u']], [1, 'o', 0, N('put'), ['u']]],
+           'ops': [E(1, 'dec'), E(0, 'put'), E(0, 'put', {'value': 1}), E(1, 'inc')]}
+    yield {'blocks': [{**fsm(2, [['e0', None, 1], ['e1', None, 0]], enter=[[], [['r']]]), 'persistent': True},
+                      {**inp(), 'persistent': True}],
+           'edges': [[1, 'o', 0, N('e0'), ['u']]], 'ops': [E(0, 'e1'), E(1, 'put', {'value': 1}), R(1, N('put'), {'value': 2})]}
     A = ['adv']
     # Repeat: forwards from inside its handler, re-sends from its main task (count 2: two repetitions)
     yield {'blocks': [rpt(1, 'put', 2), inp()], 'edges': [], 'ops': [E(0, 'put', {'value': 1}), A, A, A, E(0, 'zz'), E(0, 'put', {'value': 2}), A]}
@@ -1080,6 +1111,7 @@ def rand_circuit(rng):
                     q = rng.random()
                     conds[ev] = [acts, ['c', True] if q < 0.4 else ['c', False] if q < 0.65 else ['k', 'value']]
             blocks.append({'kind': 'fsm', 'n': ns, 'trans': trans, 'timed': timed, 'conds': conds,
+                           'persistent': rng.random() < 0.35,
                            'enter': [fscript(True) for _ in range(ns)], 'exit': [fscript(False) for _ in range(ns)]})
         elif k == 'repeat':
             blocks.append(rpt(rdest[i], rtype[i], rng.choice([None, None, 0, 1, 2])))
@@ -1088,9 +1120,9 @@ def rand_circuit(rng):
         elif k == 'input':
             allowed = None if rng.random() < 0.7 else [0, 1, 2]
             initdef = rng.choice([0, 1, 2]) if rng.random() < 0.8 or quiet else None
-            blocks.append(inp(initdef=initdef, allowed=allowed))
+            blocks.append({**inp(initdef=initdef, allowed=allowed), 'persistent': rng.random() < 0.35})
         else:
-            blocks.append(cnt(mod=rng.choice([None, None, 3]), initdef=rng.choice([0, 1])))
+            blocks.append({**cnt(mod=rng.choice([None, None, 3]), initdef=rng.choice([0, 1])), 'persistent': rng.random() < 0.35})
     return {'blocks': blocks, 'edges': edges}
 
 
